@@ -3,7 +3,9 @@
 // translation units, so there is no ODR hazard.)
 #pragma once
 #include <queue>
+#include <array>
 #include "btdmp.h"
+#include "icu.h"
 
 struct TeakraVerifAccess {
     // Btdmp
@@ -14,4 +16,8 @@ struct TeakraVerifAccess {
     static bool& BtEmpty(Teakra::Btdmp& b) { return b.transmit_empty; }
     static bool& BtFull(Teakra::Btdmp& b) { return b.transmit_full; }
     static std::queue<u16>& BtQueue(Teakra::Btdmp& b) { return b.transmit_queue; }
+    // ICU
+    static Teakra::ICU::IrqBits& IcuRequest(Teakra::ICU& i) { return i.request; }
+    static std::array<Teakra::ICU::IrqBits, 3>& IcuEnabled(Teakra::ICU& i) { return i.enabled; }
+    static Teakra::ICU::IrqBits& IcuVectoredEnabled(Teakra::ICU& i) { return i.vectored_enabled; }
 };
